@@ -89,7 +89,7 @@ pub struct LexShards {
 }
 impl LexShards {
     pub fn new(out: &Path, thorough: bool) -> LexShards {
-        let evals = vec![Eval { label: "lex", func: "ev_lex".into(), role: "corr" }, Eval { label: "lexstream", func: "or_stream".into(), role: "oracle" }];
+        let evals = vec![Eval { label: "lex", func: "ev_lex".into(), role: "corr" }, Eval { label: "lexexpand", func: "ev_lex_expand".into(), role: "corr" }, Eval { label: "lexbuf", func: "ev_lex_buf".into(), role: "corr" }, Eval { label: "lexstream", func: "or_stream".into(), role: "oracle" }];
         LexShards {
             sh: Shards::new(out, "lex", LEX_IMPORTS, "lexcase", evals, "show_lex", if thorough { 1500 } else { 400 }),
             seen: Default::default(),
@@ -104,10 +104,24 @@ impl LexShards {
         }
         let mut tab = ErrTab::default();
         let evs = record(bytes, &RCfg::default(), &mut tab);
+        // the same bytes with expand_empty_elements, and through a BufReader of a small capacity
+        // (a byte-order mark is only recognised when the first fill_buf returns all three bytes)
+        let mut tab_x = ErrTab::default();
+        let evs_x = record(bytes, &RCfg { expand_empty: true, ..RCfg::default() }, &mut tab_x);
+        let caps = [1usize, 2, 3, 5, 7, 64];
+        let mut cap = caps[(bytes.len() + bytes.iter().map(|b| *b as usize).sum::<usize>()) % caps.len()];
+        if cap < 3 && bytes.starts_with(&[0xEF, 0xBB]) {
+            cap = 3;
+        }
+        let mut tab_b = ErrTab::default();
+        let evs_b = record(bytes, &RCfg { bufcap: cap, ..RCfg::default() }, &mut tab_b);
         let it = &mut self.sh.intern;
         let evs_t: Vec<String> = evs.iter().map(|e| canon_event(e, &tab, it)).collect();
+        let evs_xt: Vec<String> = evs_x.iter().map(|e| canon_event(e, &tab_x, it)).collect();
+        let evs_bt: Vec<String> = evs_b.iter().map(|e| canon_event(e, &tab_b, it)).collect();
         let bytes_t: Vec<String> = bytes.iter().map(|b| b.to_string()).collect();
-        let term = format!("([{}], [{}])", bytes_t.join(";"), evs_t.join("; "));
+        let term = format!("([{}], [{}], [{}], [{}])", bytes_t.join(";"), evs_t.join("; "), evs_xt.join("; "), evs_bt.join("; "));
+        *self.kinds.entry(format!("lex-bufreader-capacity:{}", cap)).or_insert(0) += 1;
         let last = match evs.last() {
             Some(Ev::Err(_, i)) => format!("error:{}", err_code(&tab.0[*i])),
             _ => "no-reader-error".to_string(),
@@ -115,7 +129,7 @@ impl LexShards {
         *self.kinds.entry(format!("lex-input:{}", kind)).or_insert(0) += 1;
         *self.kinds.entry(format!("lex-stream-end:{}", last)).or_insert(0) += 1;
         self.max_len = self.max_len.max(bytes.len());
-        self.sh.push(term, json::obj(vec![("kind", json::s(kind)), ("bytes", json::bytes(bytes)), ("error_table", J::A(tab.0.iter().map(json::s).collect()))]));
+        self.sh.push(term, json::obj(vec![("kind", json::s(kind)), ("bytes", json::bytes(bytes)), ("bufreader_capacity", J::N(cap as i64)), ("error_table", J::A(tab.0.iter().map(json::s).collect()))]));
     }
 }
 
